@@ -62,6 +62,18 @@ func libToLib(rng *rand.Rand, call, pw string, how string) rec.Event {
 		dc, err = telnet.Dial(ln.Addr().String(), call, pw)
 	case "DialTimeout":
 		dc, err = telnet.DialTimeout(ln.Addr().String(), call, pw, 3*time.Second)
+	case "DialTimeout-idle", "DialContext-idle":
+		// the connection is used only after the dial deadline has passed: the deadline belongs to the dial, not to the stream
+		if how == "DialTimeout-idle" {
+			dc, err = telnet.DialTimeout(ln.Addr().String(), call, pw, 400*time.Millisecond)
+		} else {
+			ctx, cancel := context.WithTimeout(context.Background(), 400*time.Millisecond)
+			defer cancel()
+			dc, err = telnet.DialContext(ctx, ln.Addr().String(), call, pw)
+		}
+		if err == nil {
+			time.Sleep(600 * time.Millisecond)
+		}
 	case "DialURL":
 		u := &transport.URL{Scheme: "telnet", Host: ln.Addr().String(), Target: "wl2k"}
 		u.User = urlUser(call, pw)
@@ -380,11 +392,11 @@ func Main(args []string) int {
 		}()
 	}
 	calls := []string{"LA5NTA", "la5nta-7", "N0CALL", "A", "call with space", "blåbær", strings.Repeat("X", 1000), "tab\tcall", "a@b.c", "LA5NTA%Test", "%s%d%%"}
-	pws := []string{"CMSTelnet", "", "pass word", "pässword", strings.Repeat("p", 1000), "x", "100%", "%v%n%"}
-	hows := []string{"Dial", "DialTimeout", "DialContext", "DialURL"}
+	pws := []string{"CMSTelnet", "", "pass word", "pässword", strings.Repeat("p", 1000), "x", "100%", "%v%n%", strings.Repeat("4k", 2048), strings.Repeat("L", 20000)}
+	hows := []string{"Dial", "DialTimeout", "DialContext", "DialURL", "DialTimeout-idle", "DialContext-idle"}
 	for i := 0; i < *n; i++ {
 		call, pw, how := calls[i%len(calls)], pws[(i/2)%len(pws)], hows[i%len(hows)]
-		if how == "DialURL" && (strings.ContainsAny(call, " \t") || len(call) > 100) {
+		if how == "DialURL" && (strings.ContainsAny(call, " \t") || len(call) > 100 || len(pw) > 1000) {
 			how = "DialContext"
 		}
 		emit(func(r *rand.Rand) rec.Event { return libToLib(r, call, pw, how) })
